@@ -176,11 +176,46 @@ def kv_check(ctx, module, theorems, relevant, what, assumptions, procs=None, cas
         "read_tier_histogram": merge(outs, "read_tiers"), "cases_with_difference": diffs, "corpus_cases": corpus_n,
         "traces_validated_against_impl": ncases,
     })
+    inv_stage(ctx, cov, outs)
     if tiers:
         tier_stage(ctx, outs, cov)
     if pre_finish:
         pre_finish(ctx, cov)
     return finish(ctx, "proof", cov, assumptions)
+
+
+def inv_stage(ctx, cov, outs=None, procs=8, cases=None):
+    """the standing invariants of a store at rest (harness lib `inv`: index agreement, len / memory accounting,
+    clock floor, tier copies after every call; ownership partition, counters and MarkOK after every acknowledged
+    flush and reopen), evaluated by the kv harness on every configuration; findings that name this property are
+    failing inputs of it"""
+    if outs is None:
+        ok, out = cargo_build(ctx, ["kv"])
+        if not ok:
+            return
+        outs = run_kv(ctx, procs, cases or (20 if ctx.tier == "quick" else 150))
+    n = 0
+    for o in outs:
+        if "crash" in o:
+            continue
+        for l in read_lines(os.path.join(o["dir"], "kv.inv.fail")):
+            props, _, what = l.partition("\t")
+            if ctx.prop not in props.split(","):
+                continue
+            n += 1
+            if n <= 2:
+                m = None
+                import re
+                mm = re.search(r"case (\d+) after call (\d+)", what)
+                case_ops = []
+                if mm:
+                    cs = split_cases(o["ops"], o["impl"], o["model"])
+                    ci = int(mm.group(1)) - 1
+                    if ci < len(cs):
+                        case_ops = cs[ci]["ops"][:int(mm.group(2)) + 1]
+                violation(ctx, "a standing invariant of the store fails at rest: " + what, "".join(x + "\n" for x in case_ops) + "# %s\n" % what, tag="inv")
+    cov["invariant_findings"] = n
+    ctx.log("standing invariants: %d findings for %s" % (n, ctx.prop))
 
 
 def tier_stage(ctx, outs, cov):
